@@ -17,17 +17,14 @@ DRIVER = "drv_c17"
 HARNESS = {"bin": "pvh_c17", "features": "default"}
 THEOREMS = [
     "PV.C17.strip_underlines_spec",
-    "PV.C17.parse_bytes_eq_parse_str_partial",
-    "PV.C17.parse_bytes_vertical_tab_fails",
+    "PV.C17.parse_bytes_eq_parse_str",
     "PV.C17.repr_special",
     "PV.C17.repr_shape",
     "PV.C17.repr_integer_dot_zero",
-    "PV.C17.isInteger_cases",
+    "PV.C17.isInteger_iff_integer",
     "PV.C17.repr_roundtrip_partial",
     "PV.C17.repr_roundtrip_integer",
-    "PV.C17.repr_roundtrip_fails",
-    "PV.C17.hex_eq_py_partial",
-    "PV.C17.hex_eq_py_fails",
+    "PV.C17.hex_eq_py",
     "PV.C17.hex_roundtrip_partial",
     "PV.C17.hex_roundtrip_zero_inf",
     "PV.C17.hex_roundtrip",
@@ -37,7 +34,6 @@ THEOREMS = [
     "PV.C17.format_fixed_eq_printf",
     "PV.C17.format_exponent_eq_printf",
     "PV.C17.general_decision_eq_printf",
-    "PV.C17.general_precision0_fails",
     "PV.C17.from_hex_inexact_rejected",
     # facts about PV.Dec itself
     "PV.Dec.ofDigits_natDigits",
@@ -67,27 +63,27 @@ TRUSTED = [
     "tools/props/c17.py (generators, oracle), harness/src/bin/pvh_c17.rs, lean/Drv/C17.lean",
 ]
 PARTIAL = [
-    "repr_roundtrip_partial and repr_shape assume PV.C17.DecFacts / FracDigits for the double (shortest digits round "
-    "back through ofDecimal; an is_integer value is recovered from its one-decimal rendering; a non-is_integer value "
-    "has digits after the point). These are facts about digit generation (PV.Dec), evaluated by the driver on every "
-    "sampled finite double of the run (coverage.dec_facts: all hold except at +-0.9999999999999999), not proved for "
-    "all 2^64 patterns (for integer-valued doubles in the fixed range the round trip IS proved unconditionally: "
-    "repr_roundtrip_integer, repr_integer_dot_zero). What IS proved for all doubles: the notation decision, the layouts, the exponent suffix and "
-    "that the parser (trim, underscore stripping, grammar scanner, exponent reader) inverts each layout.",
+    "repr_roundtrip_partial (all finite doubles) assumes PV.C17.DecFacts for doubles that are NOT integer-valued in "
+    "fixed notation: the shortest digits round back through ofDecimal, and a non-integer has digits after the "
+    "point (FracDigits, also the hypothesis of repr_shape's fixed branch). These are facts about digit generation "
+    "(PV.Dec), evaluated by the driver on every sampled finite double of the run (coverage.dec_facts: hold on all), "
+    "not proved for all 2^64 patterns. Integer-valued doubles in the fixed range round-trip unconditionally "
+    "(repr_roundtrip_integer, repr_integer_dot_zero). Proved for all doubles: the notation decision, the layouts, "
+    "the exponent suffix and that the parser (trim, underscore stripping, grammar scanner, exponent reader) inverts "
+    "each layout.",
     "'is a shortest such rendering' is inherited from Rust's {:e}/Display (Grisu/Dragon) = PV.Dec.shortest; minimality "
     "of PV.Dec.shortest is not proved in Lean, it is compared with CPython's repr digit count on every sampled double.",
-    "hex_roundtrip is proved for every non-NaN double (HexFacts is a theorem, hexFacts_all), relative to the model of "
-    "hexf-parse's scanner and convert_hexf64 (modelled line by line incl. their u64/isize Inexact exits; tied to the "
-    "crate by the from-hex streams). to_hex = float.hex() holds off the subnormals only (hex_eq_py_fails).",
+    "hex_roundtrip and hex_eq_py are proved for every double, relative to the model of hexf-parse's scanner and "
+    "convert_hexf64 (modelled line by line incl. their u64/isize Inexact exits; tied to the crate by the from-hex "
+    "streams).",
     "Acceptance-set equality of the parser with Python's float() grammar (Spec.pyFloatRe) is not proved in Lean; it is "
     "checked exhaustively for every string of length <= 5 (quick) / 6 (thorough) over 12 symbols plus structured "
     "random and malformed texts, against CPython itself; strip_underlines_spec proves the underscore rule for all texts.",
     "That Rust's formatting / lexical / hexf primitives equal PV.Dec (correctly rounded digits, shortest digits with "
     "ties upwards, correctly rounded parsing) is sampled by the dec-primitives and parse streams, not proved.",
-    "Full statements that FAIL on the unchanged code, each with a witnessed negation: repr round trip "
-    "(repr_roundtrip_fails), to_hex = float.hex() on subnormals (hex_eq_py_fails), %g at precision 0 "
-    "(general_precision0_fails), parse_bytes = parse_str with a vertical tab (parse_bytes_vertical_tab_fails), "
-    "from_hex on inexact input (from_hex_inexact_rejected).",
+    "One full statement still FAILS on the code, with a witnessed negation: from_hex on inexact input "
+    "(from_hex_inexact_rejected; known finding fromhex-hexf-inexact). The four other former findings were repaired in "
+    "/repo (5be0365, 8617a1f, 03089a4, 668a737) and their theorems are now unrestricted.",
 ]
 READY = True
 TECHNIQUE = ("Lean 4 theorems over a hand-written model built on exact big-Nat binary<->decimal arithmetic + "
@@ -96,12 +92,13 @@ LEVEL_TEXT = ("Machine-checked Lean 4 theorems over an executable model of liter
               "binary<->decimal arithmetic: underscore stripping accepts exactly 'underscores between digits' (all "
               "texts); repr has Python's shape and special names; parse_str inverts every repr layout (round trip, "
               "conditional on per-double digit-generation facts that the run evaluates on every sampled double); "
-              "to_hex equals float.hex() off the subnormals and from_hex(to_hex x) = x for every non-NaN double (through "
+              "to_hex equals float.hex() for every double and from_hex(to_hex x) = x for every non-NaN double (through "
               "a line-by-line model of hexf-parse, with ofRat proved exact on representable values); the exponent "
               "suffix is sign + >= 2 digits and reads back; "
               "format_fixed / format_exponent / format_general equal ISO C %f/%e/%g (with '#') over correctly rounded "
-              "digits for all doubles and all precisions (g: >= 1); rounding is within half a unit, ties to even. "
-              "Five deviations from Python are proved as witnessed negations and listed as known findings. The model is "
+              "digits for all doubles and all precisions 0..; rounding is within half a unit, ties to even. "
+              "One remaining deviation from Python (from_hex rejects inexact input) is proved as a witnessed negation "
+              "and listed as a known finding; four others were repaired in /repo and are now regression probes. The model is "
               "tied to the Rust code on every run by boundary-directed and exhaustive-small-scope correspondence, and "
               "the real code is judged directly by CPython (repr, float, float.hex, float.fromhex, %).")
 LEVEL_NOTE = ("Trusted: Lean kernel (propext/Classical.choice/Quot.sound only); fidelity of the hand model and of PV.Dec "
@@ -274,18 +271,6 @@ def classify(req, impl_out, model_out, failure):
     op = ws[0]
     if not failure:
         return None
-    if op in ("ftoa", "ftoart") and int(ws[1]) in NEAR_ONE:
-        return "repr-near-one-rounds-to-1.0"
-    if op == "fhex":
-        b = int(ws[1])
-        if (b & EXPMASK) == 0 and (b & ((1 << 52) - 1)) != 0 and b2f(b).hex() != impl_out[1:]:
-            # same value, different text?
-            try:
-                if float.fromhex(impl_out[1:]) == b2f(b):
-                    return "hex-subnormal-text"
-            except ValueError:
-                return None
-        return None
     if op == "fromhex" and impl_out == "none":
         s = unhex(ws[1]).decode("ascii", "replace")
         ex = _hex_exact(s)
@@ -300,14 +285,6 @@ def classify(req, impl_out, model_out, failure):
         if Fraction(f) != val or len(sig) > 16:
             return "fromhex-hexf-inexact"
         return None
-    if op == "atofb" and impl_out == "none":
-        b = unhex(ws[1])
-        core_ = b.strip(b" \t\n\r\x0b\x0c")
-        if b"\x0b" in b and b"\x0b" not in core_ and _py_float(b) != "none":
-            return "parse-bytes-vertical-tab"
-        return None
-    if op == "ffmt" and ws[1] == "g" and ws[3] == "0" and ws[6] == "0":
-        return "general-precision-0"
     return None
 
 
@@ -323,7 +300,7 @@ def _dedup(xs):
 
 
 def _no_known(xs):
-    return [x for x in xs if x not in NEAR_ONE]
+    return list(xs)      # (the former finding at +-0.9999999999999999 is repaired: nothing to keep out)
 
 
 def specials():
@@ -437,7 +414,7 @@ def _num_text(rng):
         if rng.random() < 0.5:
             body += rng.choice("eE") + rng.choice(["", "+", "-"]) + digitpart(1, 4)
     s = rng.choice(["", "", "+", "-"]) + body
-    ws = [" ", "\t", "\n", "\r", "\x0c", "  "]
+    ws = [" ", "\t", "\n", "\r", "\x0c", "\x0b", "  "]
     if rng.random() < 0.3:
         s = rng.choice(ws) + s
     if rng.random() < 0.3:
@@ -503,19 +480,14 @@ def _fmt_reqs(bits, kinds="feg", cases="lu", alts=(0, 1), lo=0, hi=20):
         for kind in kinds:
             for case in cases:
                 for alt in alts:
-                    if kind == "g":
-                        out.append(f"ffmts g {b} {case} {alt} 0 {max(lo, 1)} {hi}")
-                    else:
-                        out.append(f"ffmts {kind} {b} {case} {alt} 0 {lo} {hi}")
+                    out.append(f"ffmts {kind} {b} {case} {alt} 0 {lo} {hi}")
     return out
 
 
 def _bits_reqs(bits):
     out = []
     for b in bits:
-        out += [f"ftoa {b}", f"ftoart {b}", f"fhexrt {b}"]
-        if (b & EXPMASK) != 0 or (b & (SIGN - 1)) == 0:      # subnormal text is a listed finding: probed once
-            out.append(f"fhex {b}")
+        out += [f"ftoa {b}", f"ftoart {b}", f"fhex {b}", f"fhexrt {b}"]
     return out
 
 
@@ -567,15 +539,20 @@ def streams(ctx):
     q = ctx.quick
     rng = ctx.rng("values")
 
-    # ---- known findings: one deterministic probe each
-    probes = [f"ftoa {NEAR_ONE[0]}", f"ftoart {NEAR_ONE[0]}", f"ftoa {NEAR_ONE[1]}", f"ftoart {NEAR_ONE[1]}",
-              "fhex 1", f"fhex {1 << 51}", f"fhex {(1 << 52) - 1}", f"fhex {SIGN | 12345}",
-              "fromhex " + hexs("0x1.00000000000001p0"), "fromhex " + hexs("0x1p-1075"),
-              "fromhex " + hexs("0x10000000000000000p0"), "fromhex " + hexs("1.fffffffffffff8p0"),
-              "atofb " + hexs(b"\x0b1"), "atofb " + hexs(b"1.5\x0b"), "atofb " + hexs(b" \x0b-1e3\x0b\n"),
-              f"ffmt g {f2b(5.0)} 0 l 0 0", f"ffmt g {f2b(0.0)} 0 u 1 0", f"ffmt g {f2b(123.0)} 0 l 0 0"]
+    # ---- the one remaining known finding: deterministic probes
+    probes = ["fromhex " + hexs("0x1.00000000000001p0"), "fromhex " + hexs("0x1p-1075"),
+              "fromhex " + hexs("0x10000000000000000p0"), "fromhex " + hexs("1.fffffffffffff8p0")]
     out.append(Stream("known-finding-probes", probes, kind="corpus",
-                      note="one deterministic request per listed known finding"))
+                      note="deterministic requests for the listed known finding fromhex-hexf-inexact"))
+    # ---- regression corpus: the inputs of the four findings repaired in /repo (5be0365, 8617a1f, 03089a4,
+    # 668a737); ordinary requests now, so a regression is a VIOLATION
+    regress = [f"ftoa {NEAR_ONE[0]}", f"ftoart {NEAR_ONE[0]}", f"ftoa {NEAR_ONE[1]}", f"ftoart {NEAR_ONE[1]}",
+               "fhex 1", f"fhex {1 << 51}", f"fhex {(1 << 52) - 1}", f"fhex {SIGN | 12345}", f"fhexrt {SIGN | 12345}",
+               "atofb " + hexs(b"\x0b1"), "atofb " + hexs(b"1.5\x0b"), "atofb " + hexs(b" \x0b-1e3\x0b\n"),
+               f"ffmt g {f2b(5.0)} 0 l 0 0", f"ffmt g {f2b(0.0)} 0 u 1 0", f"ffmt g {f2b(123.0)} 0 l 0 0",
+               f"ffmt g {f2b(0.5)} 0 l 0 1", f"ffmts g {f2b(0.00390625)} l 1 0 0 3"]
+    out.append(Stream("repaired-findings-regression", regress, kind="corpus",
+                      note="inputs of the repaired findings (repr near one, subnormal hex text, vertical tab, %g precision 0)"))
 
     # ---- corpus of boundary doubles
     corpus_vals = [f2b(x) for x in (1.0, 1e16, 1e15, 9999999999999998.0, 1e-4, 1e-5, 0.0001234, 0.00009999999999999999,
@@ -609,7 +586,7 @@ def streams(ctx):
     fm = [b for b in fm]
     out.append(Stream("format-f-e-g-precisions-0..20", _fmt_reqs(fm, cases="l") + _fmt_reqs(fm[::3], cases="u"),
                       kind="directed",
-                      note="format_fixed/exponent/general at every precision 0..20 (g: 1..20), both alternate-form "
+                      note="format_fixed/exponent/general at every precision 0..20, both alternate-form "
                            "settings, ties at every precision, powers of ten and integers +-ulp; judged by CPython '%'"))
     asf = [f"ffmts g {b} l {alt} 1 0 20" for b in fm[::(7 if q else 2)] for alt in (0, 1)]
     neg = [r.replace(f" {b} ", f" {b | SIGN} ") for b in fm[::(11 if q else 3)] if is_finite_bits(b)
@@ -631,10 +608,10 @@ def streams(ctx):
     out.append(Stream(f"parse-str-exhaustive-len<={L}", ["atof " + hexs(t) for t in texts], kind="exhaustive",
                       exhaustive=True, note="every string over {0 1 _ . e + - space i n f a}; judged by CPython float()"))
     Lb = 4 if q else 5
-    balpha = ["0", "1", "_", ".", "e", "-", " ", "\t", "\x0c", "n", "a"]
+    balpha = ["0", "1", "_", ".", "e", "-", " ", "\t", "\x0b", "n", "a"]
     out.append(Stream(f"parse-bytes-exhaustive-len<={Lb}", ["atofb " + hexs(t) for t in _all_texts(balpha, Lb)],
                       kind="exhaustive", exhaustive=True,
-                      note="parse_bytes over {0 1 _ . e - space tab formfeed n a}; judged by CPython float(bytes)"))
+                      note="parse_bytes over {0 1 _ . e - space tab vertical-tab n a}; judged by CPython float(bytes)"))
     trng = ctx.rng("texts")
     n = 4000 if q else 150000
     valid = [_num_text(trng) for _ in range(n)]
@@ -659,18 +636,17 @@ def streams(ctx):
                                           0x3000, 0xFEFF] + list(range(0x1FFF, 0x200D)):
         corpus_txt += [chr(cp) + "1.5", "1.5" + chr(cp), chr(cp) + "nan" + chr(cp)]
     out.append(Stream("parse-str-structured", ["atof " + hexs(t) for t in corpus_txt + valid + hard + long_] +
-                      ["atofb " + hexs(t) for t in valid[::4] if "\x0b" not in t],
+                      ["atofb " + hexs(t) for t in valid[::4]],
                       kind="random", note="grammar-generated numerals (underscores, exponents, whitespace, special names), "
                                           "decimal texts at/around midpoints of adjacent doubles, 17..800-digit mantissas"))
     mal = []
     for t in valid[: (2000 if q else 60000)]:
         m = _mutate(trng, t)
         mal.append("atof " + hexs(m))
-        if "\x0b" not in m:
-            try:
-                mal.append("atofb " + hexs(m.encode("latin-1")))
-            except UnicodeEncodeError:
-                pass
+        try:
+            mal.append("atofb " + hexs(m.encode("latin-1")))
+        except UnicodeEncodeError:
+            pass
     out.append(Stream("parse-malformed", mal, kind="malformed", note="single edits of valid numerals"))
 
     # ---- hexadecimal texts
@@ -717,11 +693,10 @@ def streams(ctx):
         got = core.run_lines([core.driver_path(DRIVER)], [f"decfacts {b}" for b in fin], jobs=4 if q else 16)
         failing = [b for b, g in zip(fin, got) if g != "ok"]
         ctx.extra["dec_facts"] = {"doubles": len(fin), "failing": len(failing), "failing_bits": failing[:10],
-                                  "expected_failing": sorted(NEAR_ONE),
                                   "note": "PV.C17.DecFacts (hypothesis of repr_roundtrip_partial) decided by drv_c17; "
-                                          "it must fail exactly at +-0.9999999999999999 (the listed finding)"}
-        if sorted(failing) != sorted(NEAR_ONE):
-            ctx.notes.append(f"DEC FACTS: hypothesis of repr_roundtrip_partial fails on unexpected doubles {failing[:5]}")
+                                          "it must hold on every double"}
+        if failing:
+            ctx.notes.append(f"DEC FACTS: hypothesis of repr_roundtrip_partial fails on doubles {failing[:5]}")
         nz = [b for b in fin if b & (SIGN - 1)]
         got = core.run_lines([core.driver_path(DRIVER)], [f"hexfacts {b}" for b in nz], jobs=4 if q else 16)
         hfail = [b for b, g in zip(nz, got) if g != "ok"]
@@ -748,7 +723,7 @@ def search(ctx, disagreements, bins):
             b = int(ws[2] if op in ("ffmts", "ffmt") else ws[1])
             for d in (0, 1, -1, 2, -2):
                 x = b + d
-                if 0 <= x < (1 << 64) and x not in NEAR_ONE:
+                if 0 <= x < (1 << 64):
                     reqs += _bits_reqs([x])
                     if not (x & SIGN):
                         reqs += _fmt_reqs([x])
@@ -758,8 +733,6 @@ def search(ctx, disagreements, bins):
             if op != "fromhex":
                 cands |= {b" " + t, t + b" "}
             for c in cands:
-                if b"\x0b" in c:
-                    continue
                 if op == "fromhex" and c != c.strip():
                     continue        # from_hex's callers trim; surrounding whitespace is outside the property
                 reqs.append(f"{op} " + hexs(c))
